@@ -132,6 +132,15 @@ func TestVerifReplayHandlers(t *testing.T) {
 				fmt.Printf("REPLAY-FAIL fn=%s clause=an_intent_with_content_needs_a_priority input=%s,intent i with priority 0 why=answered %v\n", "(*server.Server).TransactionSet", in, err)
 			}
 		})
+		vrsCall("(*server.Server).TransactionSet", in+",intent with a negative priority", counts, func() {
+			srv := vrsServer()
+			srv.datastores[name] = &datastore.Datastore{}
+			_, err := srv.TransactionSet(ctx, &sdcpb.TransactionSetRequest{DatastoreName: name, TransactionId: "t", Intents: []*sdcpb.TransactionIntent{{Intent: "i", Priority: -5,
+				Update: []*sdcpb.Update{{Path: &sdcpb.Path{Elem: []*sdcpb.PathElem{{Name: "patterntest"}}}, Value: &sdcpb.TypedValue{Value: &sdcpb.TypedValue_StringVal{StringVal: "hallo 00"}}}}}}})
+			if name != "" && status.Code(err) != codes.InvalidArgument {
+				fmt.Printf("REPLAY-FAIL fn=%s clause=an_intent_with_content_needs_a_priority input=%s,intent i with priority -5 why=answered %v\n", "(*server.Server).TransactionSet", in, err)
+			}
+		})
 		vrsCall("(*server.Server).TransactionConfirm", in, counts, func() { vrsServer().TransactionConfirm(ctx, &sdcpb.TransactionConfirmRequest{DatastoreName: name}) })
 		vrsCall("(*server.Server).TransactionCancel", in, counts, func() { vrsServer().TransactionCancel(ctx, &sdcpb.TransactionCancelRequest{DatastoreName: name}) })
 	}
